@@ -69,11 +69,15 @@ def _run(tier: str) -> Run:
 
     r1 = run.rule('R1', 'kernel normal form equals the documented power product, with h, m_n, pi from scipp.constants', 9)
     r2 = run.rule('R2', 'rounding discipline: only mul/div/sqrt/pow/sin on the data path, bounded op count, no narrowing cast for float64 data', 9)
+    r8 = run.rule('R8', 'no kernel writes to its arguments: the next route through the graph (and the inverse conversion) finds the inputs as they were', 9)
     results = {}
     for name in KERNELS:
         fi = repo.func('conversion.tof', name)
         specs = specs_for(fi)
-        out = single_return(run_kernel(repo, fi, specs), fi)
+        outs_all = run_kernel(repo, fi, specs)
+        writes = [dict(e.detail, where=e.where) for o_ in outs_all for e in events(o_, 'mutates-param')]
+        r8.check(not writes, name, (writes[0]['where'] if writes else loc(fi)), {'writes': writes[:3]}, key=f'conversion.tof:{name}:writes-argument')
+        out = single_return(outs_all, fi)
         got = term_of(out.value, fi)
         want = formulas.kernel_formulas()[name]
         results[name] = got
